@@ -34,7 +34,7 @@ MODULAR = SEND_QUALS | {"__init__:Gateway.alert"}
 
 # Suppressions of exactly one (function, exception class) each, with the reason.
 ASSUMPTIONS = [
-    ("A-OTA-RANGE", "ota:fw_int_to_hex", struct.error, "firmware type/version passed to update_fw are in 0..65535 and images have at most 65535 blocks (the property's own quantifier), so struct.pack('<nH') of stored firmware ids, block counts and CRC-16 values is total"),
+    ("A-OTA-RANGE", "ota:fw_int_to_hex", struct.error, "stored firmware type/version lie in 0..65535 (INV-OTA-RANGE, checked in this run: make_update rejects others) and images have at most 65535 blocks (the property's own quantifier: images that fit the 16-bit block counter), so struct.pack('<nH') of stored firmware ids, block counts and CRC-16 values is total"),
 ]
 ASSUMPTION_NOTES = [
     "A-STR-IN: the argument of Gateway.logic is a str (handle_line passes the decoded packet, recv passes ';'.join(...))",
@@ -269,6 +269,14 @@ def run(analysis: Analysis, tier: str) -> RuleResult:
     from . import c16
 
     c16.send_discipline(analysis, _Lemma)
+
+    # INV-OTA-RANGE: what A-OTA-RANGE assumes about firmware type / version is established by the update call
+    from . import c10
+
+    for summ in common.pmap(analysis, c10.update_worker, [(analysis.versions[-1], "serial", "sync")]):
+        sched = [r for r in summ["rows"] if r["req"]]
+        okr = bool(sched) and all(r["ranged"] for r in sched)
+        res.add("C01-INV", "ota:OTAFirmware.make_update / firmware type and version are stored only within 0..65535 (INV-OTA-RANGE, discharges A-OTA-RANGE for the packed ids)", okr, "mysensors/ota.py", "both stores are dominated by 0 <= type, version <= 65535" if okr else "an update call that returns normally can schedule a type / version the responders cannot pack: the node's next config request raises struct.error out of Gateway.logic", next((r["witness"] for r in sched if not r["ranged"]), None))
 
     common.check_no_key_removal(analysis, res, "C01-INV")
     common.check_key_identity(analysis, res, "C01-INV")
